@@ -507,12 +507,7 @@ func PromoteOptionsToConstructor(selector Selector, optionNames []string) Rewrit
 
 				for _, optAssignment := range opt.Assignments {
 					assignment := optAssignment.DeepCopy()
-					if assignment.Value.Argument != nil {
-						if constructorArg, found := constructorArgs[assignment.Value.Argument.Name]; found {
-							argCopy := constructorArg.DeepCopy()
-							assignment.Value.Argument = &argCopy
-						}
-					}
+					useConstructorArguments(&assignment.Value, constructorArgs)
 
 					builders[i].Constructor.Assignments = append(builders[i].Constructor.Assignments, assignment)
 				}
@@ -522,6 +517,25 @@ func PromoteOptionsToConstructor(selector Selector, optionNames []string) Rewrit
 		}
 
 		return builders, nil
+	}
+}
+
+// useConstructorArguments makes an assignment value refer to the constructor's
+// arguments (envelopes included) instead of the promoted option's.
+func useConstructorArguments(value *ast.AssignmentValue, constructorArgs map[string]ast.Argument) {
+	if value.Argument != nil {
+		if constructorArg, found := constructorArgs[value.Argument.Name]; found {
+			argCopy := constructorArg.DeepCopy()
+			value.Argument = &argCopy
+		}
+	}
+
+	if value.Envelope == nil {
+		return
+	}
+
+	for i := range value.Envelope.Values {
+		useConstructorArguments(&value.Envelope.Values[i].Value, constructorArgs)
 	}
 }
 
